@@ -255,6 +255,9 @@ carquet_status_t carquet_encode_plain_boolean(
     }
 
     size_t bytes_needed = ((size_t)count + 7) / 8;
+    if (bytes_needed == 0) {
+        return CARQUET_OK;  /* nothing to write; carquet_buffer_advance(buf, 0) returns NULL */
+    }
     uint8_t* dest = carquet_buffer_advance(output, bytes_needed);
     if (!dest) {
         return CARQUET_ERROR_OUT_OF_MEMORY;
